@@ -16,7 +16,7 @@ def run(ctx):
     fams = [("conduct", "conduct.p1", nc), ("conduct", "conduct.p2b1", nc), ("conduct", "conduct.p2", nc),
             ("gen", "gen.p1", n), ("gen", "gen.p2", n), ("gen", "gen.p2b1", n), ("gen", "gen.idem1", n),
             lambda: pc.family_faults(False, ctx.seed), lambda: pc.family_faults(True, ctx.seed),
-            lambda: pc.family_gates(False), lambda: pc.family_gates(True), lambda: pc.family_gates_metafail(False), pc.family_sibling_syn, pc.family_level_jump, lambda: pc.family_resubmit(False), pc.family_retry0, lambda: pc.family_overflow(False), lambda: pc.family_overflow(True)]
+            lambda: pc.family_gates(False), lambda: pc.family_gates(True), lambda: pc.family_gates_metafail(False), pc.family_sibling_syn, pc.family_level_jump, lambda: pc.family_resubmit(False), pc.family_retry0, lambda: [x for x in pc.family_matrix() if x["name"].endswith("-n3-lat")], lambda: pc.family_overflow(False), lambda: pc.family_overflow(True)]
     mc = ["MCProducer.small.cfg"] if ctx.tier == "quick" else ["MCProducer.quick.cfg", "MCProducer.p2.cfg"]
     # the model itself exhibits the known Retry.Max=0 finding: that run must violate OrderOK
     return pc.check(ctx, "C02", fams, mc, extra_mc=[("MCProducer", "MCProducer.retry0.cfg", "OrderOK")])
